@@ -195,11 +195,11 @@ pub fn plan(id: &str) -> Option<Plan> {
         },
         "C17" => Plan {
             id: "C17",
-            rule: "grid of 6 strategies x {no predicate via shortcut constructor, no predicate via builder, accept-all predicate, class predicate} x {backup ok, backup failing} = 48 configurations, each walked by the seeds (every configuration is run with inner Ok, handled error and rejected error, plus random payloads/latencies); oracle = pure reference function of (strategy, predicate, request, inner outcome, backup outcome) and the invocation log of the strategy closures; non-trivial iff the strategy was actually invoked; distinct = (grid index, payloads) signature",
+            rule: "grid of 6 strategies x {no predicate via shortcut constructor, no predicate via builder, accept-all predicate, class predicate} x {backup ok, backup failing} x {predicate set before, after the strategy} = 96 configurations, each walked by the seeds (every configuration is run with inner Ok, handled error and rejected error, plus random payloads/latencies); oracle = pure reference function of (strategy, predicate, request, inner outcome, backup outcome) and the invocation log of the strategy closures; non-trivial iff the strategy was actually invoked; distinct = (grid index, payloads) signature",
             assumptions: BASE_ASSUMPTIONS.to_vec(),
             floor: 40,
             engines: vec![Engine { name: "sim", salt: 1, quick: 2000, thorough: 100_000, serial: false, run: Box::new(|s, t| c17::scenario(s, t, None)) }],
-            extra: Some(|_t, _s| serde_json::json!({"grid_size": c17::GRID, "grid_note": "scenario seeds are mapped onto the 48-cell grid by seed mod 1000003 mod 48; buckets in engines.sim list the per-cell counts"})),
+            extra: Some(|_t, _s| serde_json::json!({"grid_size": c17::GRID, "grid_note": "scenario seeds are mapped onto the 96-cell grid by seed mod 1000003 mod 96; buckets in engines.sim list the per-cell counts"})),
         },
         "C18" => Plan {
             id: "C18",
